@@ -64,8 +64,13 @@ def discover(I):
             tys = [prog.tys(mir["locals"][i]["ty"]) for i in range(1, mir["arg_count"] + 1)]
             meths.append((k, tys, prog.tys(mir["locals"][0]["ty"])))
     new = [k for k, tys, ret in meths if not (tys and wadt in tys[0]) and wadt in ret]
-    opens = [k for k, tys, ret in meths if len(tys) == 2 and tys[0].startswith("&") and "mut " in tys[0] and tys[1] == "bool"]
-    closes = [k for k, tys, ret in meths if len(tys) == 1 and tys[0].startswith("&") and "mut " in tys[0] and "Result" in ret]
+    def small(ty_s):
+        if ty_s == "bool":
+            return True
+        ea = prog.adts.get(ty_s)
+        return ea is not None and ea.get("kind") == "enum" and all(not v["fields"] for v in ea["variants"]) and len(ea["variants"]) <= 4
+    opens = [k for k, tys, ret in meths if len(tys) == 2 and tys[0].startswith("&") and "mut " in tys[0] and small(tys[1])]
+    closes = [k for k, tys, ret in meths if len(tys) == 1 and tys[0].startswith("&") and "mut " in tys[0] and ("Result" in ret or "Option" in ret or ret == "bool")]
     # only the ones used from outside the writer's own methods
     from .. import rules
     idx = rules.Index(prog)
@@ -74,8 +79,13 @@ def discover(I):
     closes = [k for k in closes if any(u not in own for u in idx.users(k))]
     if len(new) != 1 or len(opens) != 1 or len(closes) != 1:
         raise Setup("cannot identify constructor/open/close of the writer (new=%s open=%s close=%s)" % (new, opens, closes))
+    oty = [tys[1] for k, tys, ret in meths if k == opens[0]][0]
+    if oty == "bool":
+        argdom = [(False, VBool(False)), (True, VBool(True))]
+    else:
+        argdom = [(v["name"], VEnum(oty, v["name"], ())) for v in prog.adts[oty]["variants"]]
     return {"writer": wadt, "write_str": write_str, "new": new[0], "open": opens[0], "close": closes[0], "fields": [fd["name"] for fd in fields], "roles": roles,
-            "other_write_items": others, "elem": roles["stack"][0][1], "line_adt": roles["line"][0][1]}
+            "other_write_items": others, "elem": roles["stack"][0][1], "line_adt": roles["line"][0][1], "open_arg_domain": argdom, "own_methods": sorted(own)}
 
 
 def mk_writer(I, st, d, line_variant, stack_items):
@@ -227,12 +237,13 @@ def guide(last, fresh):
 class Roles:
     """Which element field is the `last sibling` flag and which the `first line` flag (and its polarity), read off what open() pushes."""
 
-    def __init__(self, fields, last_field, first_field, fresh_value):
-        self.fields, self.last_field, self.first_field, self.fresh_value = fields, last_field, first_field, fresh_value
+    def __init__(self, fields, last_field, first_field, fresh_value, last_value=True, arg_to_flag=None):
+        self.fields, self.last_field, self.first_field, self.fresh_value, self.last_value = fields, last_field, first_field, fresh_value, last_value
         self.li, self.fi = fields.index(last_field), fields.index(first_field)
+        self.arg_to_flag = arg_to_flag or {}
 
     def lf(self, combo):
-        return combo[self.li], (combo[self.fi] == self.fresh_value)
+        return (combo[self.li] == self.last_value), (combo[self.fi] == self.fresh_value)
 
     def stale(self, allcombos):
         return frozenset(c for c in allcombos if c[self.fi] != self.fresh_value)
@@ -258,7 +269,7 @@ def assignments(I, st, items, roles):
         ent = st.meta.get("combos", {}).get(e)
         val = st.meta["temps"][e]
         if ent is None:
-            combo = tuple(x.b for f, x in val.fields)
+            combo = pm.elem_combo_now(I, st, e)
             outs = [dict(o, **{e: combo}) for o in outs]
         else:
             outs = [dict(o, **{e: c}) for o in outs for c in sorted(ent[1])]
@@ -272,6 +283,8 @@ def elem_value_under(I, st, tid, init_combo, fields):
     for f, x in val.fields:
         if isinstance(x, VBool):
             out.append(x.b)
+        elif isinstance(x, VEnum) and not x.fields:
+            out.append(x.variant)
         elif isinstance(x, VSymBool):
             # initial value of some element's field
             src = init_combo.get(x.elem)
@@ -281,6 +294,11 @@ def elem_value_under(I, st, tid, init_combo, fields):
         else:
             return None
     return tuple(out)
+
+
+def driver_last_arg(I, d):
+    """The value the driver passes to open() for a node that has no next sibling (None when the driver analysis did not establish it)."""
+    return I.__dict__.get("_pp_last_arg")
 
 
 def ppstep_entry(I):
@@ -310,7 +328,7 @@ def _steps(I, d):
     fields = pm.elem_fields(I, d["elem"])
     if len(fields) != 2:
         raise Setup("indent stack entries have %d flags, expected 2" % len(fields))
-    ALL = pm.all_combos(len(fields))
+    ALL = pm.all_combos(I, d["elem"])
     variants = [v["name"] for v in prog.adts[d["line_adt"]]["variants"]]
     # ---- new(): initial line state, empty stack
     st = base_state()
@@ -325,22 +343,42 @@ def _steps(I, d):
     recs.append({"entry": "ppstep", "step": "new", "exit": "return", "line": init_line, "stack_empty": empty0, "ok": bool(empty0)})
     # ---- roles of the element flags: what does open(b) push onto the empty stack?
     pushed = {}
-    for b in (False, True):
+    for b, bval in d["open_arg_domain"]:
         st = base_state()
         wroot, sid = mk_writer(I, st, d, init_line, ())
-        outs = run(I, st, d["open"], [VRef(wroot, (), True), VBool(b)])
+        outs = run(I, st, d["open"], [VRef(wroot, (), True), bval])
         if len(outs) != 1 or outs[0][0] != "return":
             raise Setup("open(%s) on the empty stack is not a single returning path: %s" % (b, [(o[0], o[3]) for o in outs]))
         items = stack_of(I, outs[0][1], d, wroot)
         if not items or len(items) != 1 or items[0][0] != "e":
             raise Setup("open() does not push exactly one entry")
         pushed[b] = pm.elem_combo_now(I, outs[0][1], items[0][1])
-    lastf = [i for i in range(2) if pushed[False][i] is False and pushed[True][i] is True]
-    firstf = [i for i in range(2) if pushed[False][i] == pushed[True][i] and pushed[True][i] is not None]
-    if len(lastf) != 1 or len(firstf) != 1 or lastf == firstf:
+    argvals = [b for b, _ in d["open_arg_domain"]]
+    lastf = [i for i in range(2) if len({pushed[b][i] for b in argvals}) == len(argvals) and None not in {pushed[b][i] for b in argvals}]
+    firstf = [i for i in range(2) if len({pushed[b][i] for b in argvals}) == 1 and pushed[argvals[0]][i] is not None]
+    if len(lastf) != 1 or len(firstf) != 1 or lastf == firstf or len(argvals) != 2:
         raise Setup("cannot tell the roles of the entry flags from what open() pushes: %s" % pushed)
-    roles = Roles(fields, fields[lastf[0]], fields[firstf[0]], pushed[True][firstf[0]])
-    recs.append({"entry": "ppstep", "step": "roles", "exit": "return", "last_flag": roles.last_field, "first_flag": roles.first_field, "fresh_value": roles.fresh_value})
+    arg_to_flag = {b: pushed[b][lastf[0]] for b in argvals}
+    # which argument value means `last sibling`: the driver says (what it passes for a node without next sibling); for a bool flag the default reading is `true`
+    last_arg = None
+    try:
+        from . import ppdriver
+        drecs, last_flag = ppdriver.driver_entry(I, d, init_line, fields, arg_to_flag, lastf[0])
+        recs.extend(drecs)
+        hits = [b for b in argvals if arg_to_flag[b] == last_flag]
+        if last_flag is not None and len(hits) == 1:
+            last_arg = hits[0]
+    except (ppdriver.Setup, Undecided, Panic) as e:
+        recs.append({"entry": "ppstep", "step": "driver-setup", "exit": "undecided", "msg": "driver analysis: %s" % e})
+    if last_arg is None:
+        if set(argvals) == {False, True}:
+            last_arg = True
+        else:
+            raise Setup("cannot tell which value of the open() argument means `last sibling`")
+    roles = Roles(fields, fields[lastf[0]], fields[firstf[0]], pushed[argvals[0]][firstf[0]], last_value=arg_to_flag[last_arg], arg_to_flag=arg_to_flag)
+    roles.last_arg = last_arg
+    recs.append({"entry": "ppstep", "step": "roles", "exit": "return", "last_flag": roles.last_field, "first_flag": roles.first_field, "fresh_value": roles.fresh_value,
+                 "last_value": roles.last_value, "last_arg": last_arg})
     STALE = roles.stale(ALL)
 
     def prestates(line):
@@ -369,12 +407,12 @@ def _steps(I, d):
         for label, st, wroot in prestates(line):
             pre_items = stack_of(I, st, d, wroot)
             # -- open(b)
-            for b in (False, True):
-                for (kind, s1, v1, m1) in run(I, st, d["open"], [VRef(wroot, (), True), VBool(b)]):
+            for b, bval in d["open_arg_domain"]:
+                for (kind, s1, v1, m1) in run(I, st, d["open"], [VRef(wroot, (), True), bval]):
                     rec = {"entry": "ppstep", "step": "open", "line": line, "stack": label, "arg": b, "exit": kind, "msg": m1}
                     if kind == "return":
                         post = stack_of(I, s1, d, wroot)
-                        rec.update(check_open(I, s1, d, roles, wroot, pre_items, post, at_start, b, init_line, fields))
+                        rec.update(check_open(I, s1, d, roles, wroot, pre_items, post, at_start, (b == roles.last_arg), init_line, fields))
                         todo.append(rec["post_line"])
                     recs.append(rec)
             # -- close
@@ -384,7 +422,8 @@ def _steps(I, d):
                     post = stack_of(I, s1, d, wroot)
                     res = I.force(s1, v1)
                     pre2 = pm.check_items(s1, pre_items)
-                    okv = isinstance(res, VEnum) and res.variant == ("Ok" if pre2 else "Err")
+                    okv = (isinstance(res, VEnum) and res.variant == (("Ok" if pre2 else "Err") if res.adt == RESULT else ("Some" if pre2 else "None"))) or \
+                          (isinstance(res, VBool) and res.b == bool(pre2))
                     popped = post == pre2[:-1] if pre2 else post == ()
                     out = canon(s1, s1.meta.get("out", ()))
                     rec.update({"result": getattr(res, "variant", repr(res)), "ok": bool(okv and popped and out == () and line_of(I, s1, d, wroot) == line),
@@ -482,6 +521,7 @@ def check_write(I, s1, d, roles, wroot, pre_items, at_start, init_line, kind, va
         # remaining input = the rest of the string
         fr = s1.frames[-1]
         strs = [pm.str_parts(I, s1, v) for l, v in fr.locals.items() if isinstance(v, (VStr, VPy)) and (isinstance(v, VStr) or v.tag == "str")]
+        strs += [pm.norm_parts(s1, v.data) for l, v in fr.locals.items() if isinstance(v, VPy) and v.tag == "splitinc"]
         if tuple(rest) not in [tuple(x) for x in strs if x is not None]:
             ok = False
             why.append("remaining input is not the rest of the string: %r" % (strs,))
